@@ -2,7 +2,7 @@
 # tools/killmatrix.sh [tier]  : run every seeded change against the check of its property in a scratch worktree (never in /repo)
 TIER="${1:-quick}"
 FILTER="${2:-C*}"
-WT=/tmp/km_repo
+WT="${KM_WT:-/tmp/km_repo}"
 OUT="${KM_OUT:-/verif/seeded/KILLMATRIX_$TIER.tsv}"
 rm -rf "$WT"; git -C /repo worktree prune; git -C /repo worktree add --detach "$WT" HEAD -q || exit 2
 : > "$OUT"
@@ -10,11 +10,11 @@ for d in /verif/seeded/$FILTER/; do
   name=$(basename "$d"); pid=$(echo "$name" | cut -c1-3)
   [ -f "$d/patch.diff" ] || continue
   if ! git -C "$WT" apply "$d/patch.diff" 2>/dev/null; then echo "$name	$pid	patch-does-not-apply	-" >> "$OUT"; continue; fi
-  VERIF_REPO="$WT" VERIF_EVIDENCE_DIR=/tmp/km_ev VERIF_REPLAY_DIR=/tmp/km_replays VERIF_WORKERS=${KM_WORKERS:-8} ./check "$pid" --tier "$TIER" > /tmp/km_$name.log 2>&1; rc=$?
-  first=$(grep -A1 '^VIOLATION' /tmp/km_$name.log | sed -n 2p | sed 's/^ *//' | cut -c1-160)
+  VERIF_REPO="$WT" VERIF_EVIDENCE_DIR="$WT.ev" VERIF_REPLAY_DIR="$WT.replays" VERIF_WORKERS=${KM_WORKERS:-8} ./check "$pid" --tier "$TIER" > "$WT.$name.log" 2>&1; rc=$?
+  first=$(grep -A1 '^VIOLATION' "$WT.$name.log" | sed -n 2p | sed 's/^ *//' | cut -c1-160)
   echo "$name	$pid	rc=$rc	$first" >> "$OUT"
   git -C "$WT" checkout -- . ; git -C "$WT" clean -fdq
 done
 git -C /repo worktree remove --force "$WT"
-rm -rf /tmp/km_ev /tmp/km_replays
+rm -rf "$WT.ev" "$WT.replays"
 cat "$OUT"
